@@ -260,14 +260,14 @@ PROPS["C05"] = dict(
 
 PROPS["C17"] = dict(
     level="proof",
-    claim="Partial, one clause only: (E1 c17_pool, index level, exhaustive over small parameters) the output shape of 2-d pooling is the standard formula - floor((H-k)/s)+1, in ceil mode the ceiling with a last window that would start beyond the input dropped (PyTorch's rule), batch and channel extents kept - for every H in 1..7, k in 1..min(H,3), s in 1..3, both modes, on either spatial axis; and the window of output position p is rows / columns [p*s, p*s+k) with the batch / channel position kept, inside the input in floor mode and starting inside it in ceil mode. (E1 c17b_conv_shape, view level, constant shapes; the run-time kind does not fold) the output shape of conv1d / conv2d is floor((L + 2p - d(k-1) - 1)/s) + 1 per spatial axis for a stride, a zero padding and a dilation given per axis (asymmetric ones included), (N, C_out, ...) in front. (E1 c17c_pool_elem, constant and run-time shapes, symbolic INTEGER values of either sign) every element of max_pool2d is the maximum of exactly its window (2x2 stride 2 on two channels, overlapping rows, a non-square kernel, ceil mode with clipped last windows). (E1 c17d_nn_elem) linear with and without bias equals the nested-loop definition for integer data of constant shape (2,3)x(2,3) / (1,3)x(2,3). (E2 R-REDAXIS) every reduction composed inside one view function (softmax, var, layer / instance / group normalisation, cosine_similarity) is taken over the same axis expression as its siblings. The ELEMENT laws of average pooling, convolution, normalisation, softmax, bilinear and the distances are NOT decided (bilinear / conv1d / conv2d do not fold; the floating-point routines are out of reach).",
+    claim="Partial, one clause only: (E1 c17_pool, index level, exhaustive over small parameters) the output shape of 2-d pooling is the standard formula - floor((H-k)/s)+1, in ceil mode the ceiling with a last window that would start beyond the input dropped (PyTorch's rule), batch and channel extents kept - for every H in 1..7, k in 1..min(H,3), s in 1..3, both modes, on either spatial axis; and the window of output position p is rows / columns [p*s, p*s+k) with the batch / channel position kept, inside the input in floor mode and starting inside it in ceil mode. (E1 c17b_conv_shape, view level, constant shapes; the run-time kind does not fold) the output shape of conv1d / conv2d is floor((L + 2p - d(k-1) - 1)/s) + 1 per spatial axis for a stride, a zero padding and a dilation given per axis (asymmetric ones included), (N, C_out, ...) in front, for a batch of 1 and (since the repair F52) of 2 samples. (E1 c17c_pool_elem, constant and run-time shapes, symbolic INTEGER values of either sign) every element of max_pool2d is the maximum of exactly its window (2x2 stride 2 on two channels, overlapping rows, a non-square kernel, ceil mode with clipped last windows). (E1 c17d_nn_elem) linear with and without bias equals the nested-loop definition for integer data of constant shape (2,3)x(2,3) / (1,3)x(2,3). (E2 R-REDAXIS) every reduction composed inside one view function (softmax, var, layer / instance / group normalisation, cosine_similarity) is taken over the same axis expression as its siblings. The ELEMENT laws of average pooling, convolution, normalisation, softmax, bilinear and the distances are NOT decided (bilinear / conv1d / conv2d do not fold; the floating-point routines are out of reach).",
     note=E1_NOTE + " The functions depend on (extent, kernel, stride, mode) only; these are constants, so the float quotient is folded by the compiler. Decided after the repair `fix: pooling in ceil mode drops a last window that would start beyond the input` (F35).",
     technique=E1_TECH + " (exhaustive enumeration of pooling parameters) + structural sibling-agreement rule over composed reductions (custom libTooling extractor)",
     e2=[dict(rule="R-REDAXIS")],
     e1=[dict(tu="c17_pool.cpp"), dict(tu="c17b_conv_shape.cpp", flags=["-DC17B_PART=1"]), dict(tu="c17b_conv_shape.cpp", flags=["-DC17B_PART=2"]), dict(tu="c17c_pool_elem.cpp"), dict(tu="c17c_pool_elem.cpp", flags=["-DVERIF_RT_KIND"]), dict(tu="c17d_nn_elem.cpp")],
     rule=E1_RULE,
     explanation="shape_pool2d / slice_pool2d are integer functions of four small parameters per axis; each (parameter combination, clause) is one obligation against the formula of the property statement.",
-    not_decided="every element law of C17 except max pooling and linear on the listed shapes (average pooling, conv1d / conv2d, softmax / softmin, the normalisations, bilinear, pairwise_distance, cosine_similarity); convolution with a batch above 1 or with groups (conv2d does not build / aborts there on the unchanged tree); pooling extents above 7",
+    not_decided="every element law of C17 except max pooling and linear on the listed shapes (average pooling, conv1d / conv2d, softmax / softmin, the normalisations, bilinear, pairwise_distance, cosine_similarity); convolution with groups and several output channels per group (output channel o is computed from group o % G on the unchanged tree, observed and not repaired); pooling extents above 7",
     assumptions=["kernel not larger than the input", "no padding, no dilation (pool2d has neither parameter)"],
 )
 
